@@ -48,6 +48,9 @@ func c04Check(c *mon.Case, kind, input string) {
 	if strings.HasPrefix(kind, "csvcfg|") {
 		kind = "csv with configured delimiters" // the label used in signatures; the configuration is part of the replay payload
 	}
+	if strings.HasPrefix(kind, "statecfg|") {
+		kind = strings.Split(kind, "|")[1] + " with reconfigured states"
+	}
 	var toks []tok
 	p := mon.Try(func() {
 		t := newTokenizer(cfgKind)
@@ -237,6 +240,54 @@ func buildC04(cfg *mon.Config) []*mon.Sub {
 				c.NonTrivial()
 				c.Count("inputs-containing-a-configured-separator")
 			}
+		},
+	})
+	subs = append(subs, &mon.Sub{
+		Name: "reconfigured-states", Rule: "built-in tokenizers (generic, expression, mustache, csv) whose states were reconfigured through their public setters - one to three of: a blank character (space, TAB, CR, LF, U+00A0) taken out of the whitespace state's set while still routed to that state, a letter or digit or underscore taken out of the word state's set, a further symbol of two to four characters from < > = ~ ! & : (so also symbols whose proper prefixes are not symbols) - on seeded inputs made of exactly those characters plus letters, digits and blanks, with every proper prefix of an added symbol tried at the very end of the input; same oracle; non-trivial = the input contains a character or symbol prefix the reconfiguration is about; distinct by hash",
+		Floor: 1000,
+		Gen: func(emit func(string)) {
+			r := cfg.Rng("c04-statecfg")
+			blanks := []string{" ", "\t", "\r", "\n", "\u00a0"}
+			wordch := []string{"a", "b", "z", "_", "1", "9", "é"}
+			symch := []string{"<", ">", "=", "~", "!", "&", ":"}
+			for i := 0; i < cfg.N(8000, 400000); i++ {
+				base := mon.Pick(r, builtinTokenizers)
+				var ops, about []string
+				for n := 1 + r.Intn(3); n > 0; n-- {
+					switch r.Intn(3) {
+					case 0:
+						x := mon.Pick(r, blanks)
+						ops, about = append(ops, "ws-"+x), append(about, x)
+					case 1:
+						x := mon.Pick(r, wordch)
+						ops, about = append(ops, "wd-"+x), append(about, x)
+					default:
+						sy := ""
+						for k := 2 + r.Intn(3); k > 0; k-- {
+							sy += mon.Pick(r, symch)
+						}
+						ops = append(ops, "sy+"+sy)
+						for k := 1; k <= len(sy); k++ {
+							about = append(about, sy[:k])
+						}
+					}
+				}
+				alpha := append([]string{"a", "b", "1", " ", "x y", "+", "\n"}, about...)
+				alpha = append(alpha, about...)
+				var b strings.Builder
+				for n := 1 + r.Intn(10); n > 0; n-- {
+					b.WriteString(mon.Pick(r, alpha))
+				}
+				b.WriteString(mon.Pick(r, about)) // the input ends on a character / symbol prefix the reconfiguration is about
+				emit("statecfg|" + base + "|" + strings.Join(ops, "|") + "\x00" + b.String())
+			}
+		},
+		Exec: func(c *mon.Case) {
+			i := strings.IndexByte(c.Payload, 0)
+			kind, input := c.Payload[:i], c.Payload[i+1:]
+			c04Check(c, kind, input)
+			c.NonTrivial()
+			c.Count("base tokenizer " + strings.Split(kind, "|")[1])
 		},
 	})
 	subs = append(subs, &mon.Sub{
